@@ -87,6 +87,12 @@ class Taint:
                 if isinstance(x, (ast.Assign, ast.NamedExpr)):
                     tgts = x.targets if isinstance(x, ast.Assign) else [x.target]
                     cs = self._table_callables(fi, x.value)
+                    if not cs and isinstance(x.value, ast.Call) and (dotted(x.value.func) or "") in ("functools.partial", "partial") and x.value.args \
+                            and all(k.arg is not None for k in x.value.keywords) and len(x.value.args) == 1:
+                        # f = functools.partial(g, name=value): calling f(a) is calling g(a, name=value) - g's positional parameters
+                        # see the arguments of the later call (arguments bound by keyword here carry no program value or are
+                        # classified where g uses them)
+                        cs = self._callable_arg(fi, x.value.args[0])
                     for t in tgts:
                         if cs and isinstance(t, ast.Name):
                             self.fnvals[(fq, t.id)] = cs
